@@ -43,8 +43,8 @@ RULES = [
     (r"bec2file\.py:", ["C02", "C07", "C03", "C11", "C09", "C08", "C14"]),
     (r"configid\.py:", ["C12", "C11"]),
     (r"bytes_reader\.py:", ["C05", "C01", "C14", "C02", "C04"]),
-    (r"crypto\.py:", ["C16", "C19", "C09", "C06", "C02"]),
-    (r"register_crypto_plugin/__init__\.py:", ["C16", "C06", "C08", "C09"]),
+    (r"crypto\.py:", ["C09", "C07", "C02", "C06", "C16", "C19", "C14"]),
+    (r"register_crypto_plugin/__init__\.py:", ["C09", "C07", "C16", "C06", "C08", "C02", "C14"]),
     (r"pyaes/", ["C16"]),
     (r"ecdsa/_rwlock\.py:", ["C20"]),
     (r"ecdsa/(ecdh)\.py:", ["C17"]),
